@@ -178,8 +178,14 @@ def examples_strategy(draw, tier='quick', allow=lambda c: True,
         xs.append('')
     if allow_padding and draw(st.integers(0, 3)) == 0 and xs:
         i = draw(st.integers(0, len(xs) - 1))
-        xs.append(draw(st.sampled_from([' ', '\t', '  '])) + xs[i]
-                  + draw(st.sampled_from(['', ' ', '\n'])))
+        xs.append(draw(st.sampled_from([' ', '\t', '  ', '', ''])) + xs[i]
+                  + draw(st.sampled_from(['', ' ', '\n', '\n'])))
+        if draw(st.booleans()):
+            # several examples that are another example plus a final line
+            # break ('$' also matches just before one)
+            for x in list(xs[:4]):
+                if x is not None and not x.endswith('\n'):
+                    xs.append(x + '\n')
     if allow_none and draw(st.integers(0, 4)) == 0:
         xs.append(None)
     if repeats and xs and draw(st.booleans()):
